@@ -198,6 +198,7 @@ func isByteSlice(t types.Type) bool {
 
 // sortOf maps a Go type to its SMT sort, declaring struct datatypes on demand.
 func (r *Registry) sortOf(t types.Type) string {
+	t = types.Unalias(t)
 	if n, ok := t.(*types.Named); ok {
 		if s, ok := r.opaque[qualName(n)]; ok {
 			if s != "Int" && s != "Bool" && s != "Str" && s != "Real" {
@@ -284,6 +285,7 @@ func (r *Registry) structOf(t types.Type) *structInfo {
 	if _, ok := t.(*mapCells); ok {
 		return nil
 	}
+	t = types.Unalias(t)
 	u, ok := t.Underlying().(*types.Struct)
 	if !ok {
 		return nil
